@@ -698,7 +698,7 @@ func goCode(root string, unit string) string {
 		emit("style/style.go", text, errs)
 	case "object":
 		header("Model.GoSem", "Model.GoJson", "Model.Ansi")
-		text, errs := translateErrFuncs(parseFile(root, "object/object.go"), []string{"GetAny", "GetString", "GetObject", "GetList", "GetTime", "GetURL", "GetMediaType"}, "GenObject")
+		text, errs := translateErrFuncs(parseFile(root, "object/object.go"), []string{"GetAny", "GetString", "GetNumber", "GetObject", "GetList", "GetTime", "GetURL", "GetMediaType"}, "GenObject")
 		emit("object/object.go (typed accessors)", text, errs)
 	case "config":
 		header("Model.GoSem")
